@@ -132,7 +132,7 @@ func (c *Chan[T]) Send(v T) {
 	p := &pendingOp{kind: opSend, obj: c.id}
 	w := &waiter[T]{t: t, p: p, val: v}
 	c.sendq = append(c.sendq, w)
-	p.enabled = func() bool { return c.closed || len(c.buf) < c.cap || len(c.recvq) > 0 }
+	p.enabled = func() bool { return c.canSend() }
 	s.point(p)
 	if p.completed {
 		return
@@ -141,7 +141,21 @@ func (c *Chan[T]) Send(v T) {
 	if c.closed {
 		panic("send on closed channel")
 	}
-	if len(c.recvq) > 0 {
+	c.put(v)
+}
+
+// canSend: a send can proceed when the channel is closed (it panics), when the buffer has room, or - unbuffered
+// channel - when a receiver is waiting. A receiver registered at a BUFFERED channel is either blocked on an empty
+// buffer or merely standing at its scheduling point with data available; in both cases the value goes through the
+// buffer, never past it: handing it to the receiver directly would let a later send overtake buffered values
+// (Go channels are FIFO).
+func (c *Chan[T]) canSend() bool {
+	return c.closed || len(c.buf) < c.cap || (c.cap == 0 && len(c.recvq) > 0)
+}
+
+// put performs a send that canSend allowed (channel not closed).
+func (c *Chan[T]) put(v T) {
+	if c.cap == 0 {
 		r := c.recvq[0]
 		c.recvq = c.recvq[1:]
 		r.val, r.ok = v, true
@@ -332,7 +346,7 @@ func (k *sendCase[T]) ready() bool {
 	if c == nil {
 		return false
 	}
-	return c.closed || len(c.buf) < c.cap || len(c.recvq) > 0
+	return c.canSend()
 }
 
 func (k *sendCase[T]) register(s *sched, p *pendingOp, st *selState, idx int) {
@@ -349,14 +363,7 @@ func (k *sendCase[T]) exec() (interface{}, bool) {
 	if c.closed {
 		panic("send on closed channel")
 	}
-	if len(c.recvq) > 0 {
-		r := c.recvq[0]
-		c.recvq = c.recvq[1:]
-		r.val, r.ok = k.v, true
-		r.complete()
-		return nil, false
-	}
-	c.buf = append(c.buf, k.v)
+	c.put(k.v)
 	return nil, false
 }
 
